@@ -779,5 +779,8 @@ func (g *exprGen) expr(ctx []*model.Value, env ref.Env, depth int) *ref.E {
 // CoreExpr generates a core-fragment expression fitted to doc.
 func CoreExpr(t *rapid.T, doc *model.Value, depth int) *ref.E {
 	g := &exprGen{t: t}
-	return g.expr([]*model.Value{doc}, ref.Env{}, depth)
+	e := g.expr([]*model.Value{doc}, ref.Env{}, depth)
+	// half of the path-like pipes are written as postfix chains (.a[0], .a["k"], .a[], .a[1:3])
+	ref.MarkPostfix(e, func() bool { return rapid.Bool().Draw(t, "postfix") })
+	return e
 }
